@@ -413,6 +413,17 @@ func runC08(c c08Case, r *rep.Report) (key, msg string, stats map[string]int64) 
 					if len(w.Tap.Of(sid, "upgrade")) != 1 {
 						key, msg = "c08-second-switch", "more than one upgrade event"
 					}
+					// the switch must not cost the session its heartbeat: a conformant client gives the
+					// session up when no ping arrives for pingInterval+pingTimeout.  Two and a half
+					// intervals later (the client answers every ping) the server must have gone on
+					// pinging and the session must still be open
+					hb := len(w.Tap.Of(sid, "heartbeat"))
+					time.Sleep(2*pi + pi/2)
+					rig.Wait()
+					stats["upgraded_sessions_followed_for_2.5_ping_intervals"]++
+					if key == "" && (sock.ReadyState() != "open" || len(w.Tap.Of(sid, "heartbeat")) <= hb) {
+						key, msg = "c08-heartbeat-stopped-after-switch", fmt.Sprintf("script %v on a %s candidate: %v after the completed upgrade (ping interval %v, the client answers every ping) the session is %s and %d further heartbeats were exchanged: the server stopped pinging the upgraded session, a conformant client drops it", c.Script, c.Candidate, 2*pi+pi/2, pi, sock.ReadyState(), len(w.Tap.Of(sid, "heartbeat"))-hb)
+					}
 					cand.Stop()
 					return
 				}
